@@ -10,7 +10,7 @@ import (
 //verif:harness VerifC17_Ops quick.maxpaths=400000 thorough.maxpaths=3000000 timeout=2400 poolreuse
 //verif:harness VerifC17_Paths quick.maxpaths=80000 thorough.maxpaths=400000 timeout=2400
 //verif:harness VerifC17_PathBytes quick.maxpaths=60000 thorough.maxpaths=400000 timeout=2400 unwind=40
-//verif:harness VerifC17_CacheFull quick.maxpaths=20000 thorough.maxpaths=20000 timeout=1200 steps=40000000
+//verif:harness VerifC17_CacheFull confirmbounds quick.maxpaths=20000 thorough.maxpaths=20000 timeout=1200 steps=40000000
 //verif:harness VerifC17_Getters quick.maxpaths=20000 thorough.maxpaths=20000 timeout=1200
 
 type zzC17Root struct {
@@ -185,6 +185,7 @@ type zzC17T struct {
 	Y *int
 	T string `json:"t"`
 	u int
+	t int // an unexported field spelled like the json name of an exported one
 }
 
 type zzC17Named map[string]any
@@ -215,6 +216,7 @@ func zzC17Value() map[string]any {
 		"pm":   &map[string]any{"k": "pk"},
 		"emb":  zzC17Emb{zzC17Inner: zzC17Inner{C: 3}, N: "en"},
 		"pemb": &zzC17Emb{zzC17Inner: zzC17Inner{C: 4}, N: "pn"},
+		"am":   map[any]any{"k": "ak", 200: "n", "0": "az"},
 	}
 }
 
@@ -259,6 +261,9 @@ func zzC17Index(cur any, seg string) (any, bool) {
 		v, ok := c[seg]
 		return v, ok
 	case zzC17Named:
+		v, ok := c[seg]
+		return v, ok && v != nil
+	case map[any]any:
 		v, ok := c[seg]
 		return v, ok && v != nil
 	case *zzC17T:
@@ -306,7 +311,7 @@ func zzC17Index(cur any, seg string) (any, bool) {
 
 var zzNilPtr = (*int)(nil)
 
-var zzC17Segs = []string{"a", "b", "m", "k", "c", "arr", "p", "s", "nilp", "sl", "X", "Y", "T", "t", "u", "0", "1", "2", "9", "-1", "zz", "pa", "ps", "tm", "nm", "7", "sos", "pm", "emb", "pemb", "N", "n", "C"}
+var zzC17Segs = []string{"a", "b", "m", "k", "c", "arr", "p", "s", "nilp", "sl", "X", "Y", "T", "t", "u", "0", "1", "2", "9", "-1", "zz", "pa", "ps", "tm", "nm", "7", "sos", "pm", "emb", "pemb", "N", "n", "C", "am"}
 
 // VerifC17_Paths: every well-formed dotted / bracketed path of up to three
 // segments resolves to what Go indexing reaches, or is reported absent.
@@ -321,7 +326,7 @@ func VerifC17_Paths() {
 		seg := zzC17Segs[zzChoice("seg", len(zzC17Segs))]
 		form := 0
 		if d > 0 {
-			form = zzChoice("form", 4)
+			form = zzChoice("form", 6)
 		}
 		switch form {
 		case 0:
@@ -335,6 +340,10 @@ func VerifC17_Paths() {
 			path += "['" + seg + "']"
 		case 3:
 			path += `["` + seg + `"]`
+		case 4: // blanks inside the brackets
+			path += "[ '" + seg + "' ]"
+		case 5:
+			path += "[ " + seg + " ]"
 		}
 		if ok {
 			cur, ok = zzC17Index(cur, seg)
